@@ -7,7 +7,9 @@
            reproduce their counterexample.
 2. Export: (a) sequential workloads (shared with C12); (b) every interleaving of the 4 store
            calls of a flush with the 8 of a compaction of two segments (495 schedules);
-           (c) tombstone-GC layouts with a segment above the size target.
+           (c) tombstone-GC layouts with a segment above the size target; (d) random workloads
+           dense in compactions, each under a scripted store fault (failed / partial write,
+           failed or damaged download of an input segment, rename applied-but-reported-failed).
 3. Replay: real Compactor (harness clock) and real StreamingPersistence as two tasks whose store
            calls are gated in the exported order; real recovery after every mutating call.
 4. TV    : StreamTrace (recovered state absorbs every confirmed delta, invents nothing).
@@ -67,6 +69,14 @@ def run(tier):
         conc = conc[::3]
     runs, bad = sc.replay_validate(rep, wd, conc, "interleavings", describe)
     nt += len(runs)
+    # random workloads dense in compactions, each with a scripted store fault (failed, partial, damaged read ...)
+    for c in range(4 if tier == "thorough" else 1):
+        tr = os.path.join(wd, f"faulted{c}.ndjson")
+        vlib.vh(["stream", "record", "--cheavy", 1, "--seed", vlib.seed() * 100 + 50 + c, "--n", 2500 if tier == "thorough" else 500, "--out", tr])
+        fr, bad = vlib.validate_runs(rep, "StreamTrace", "StreamTrace", tr, wd, f"faulted{c}", dev_cfgs=sc.DEV_CFGS,
+                                     describe=describe, strip=("state", "rv"))
+        nt += len(fr)
+        os.remove(tr)
     k = sorted(runs)[len(runs) // 2]
     rep.sample({"scenario": runs[k][0]["scn"], "events": [{x: e[x] for x in e if x not in ("run", "state", "rv", "key")} for e in runs[k][1:60]]})
     rep.notes["scenarios"] = {"sequential_with_compaction": len(seq), "gc_layouts": len(gcs), "interleavings": len(conc)}
